@@ -9,6 +9,7 @@ import (
 	"context"
 	"errors"
 	"fmt"
+	"os"
 	"runtime/debug"
 	"strings"
 	"sync"
@@ -579,6 +580,29 @@ func Compile(src string) (*lua.FunctionProto, error) {
 		return nil, err
 	}
 	return lua.Compile(chunk, ir.ChunkName)
+}
+
+// CompileFromFile compiles a program that was rendered with a header line the way a script file is loaded: the header
+// is replaced by a '#' line and the text goes through LState.LoadFile (which skips that line). The prototype must be
+// the one Compile gives, source positions included.
+func CompileFromFile(src string) (*lua.FunctionProto, error) {
+	if !strings.HasPrefix(src, ir.HeaderLine) {
+		return Compile(src)
+	}
+	f, err := os.CreateTemp("", "simlua*.lua")
+	if err != nil {
+		return nil, err
+	}
+	defer os.Remove(f.Name())
+	f.WriteString("#!/usr/bin/env lua" + src[len(ir.HeaderLine):])
+	f.Close()
+	L := lua.NewState(lua.Options{SkipOpenLibs: true})
+	defer L.Close()
+	fn, err := L.LoadFile(f.Name())
+	if err != nil {
+		return nil, err
+	}
+	return fn.Proto, nil
 }
 
 // Outcome of running a chunk from Go.
